@@ -967,3 +967,27 @@ def closure_returns_call(c, name, mention=None):
     if any(b["t"]["k"] == "switch" for i, b in enumerate(c.blocks) if i in c.reachable):
         return False
     return mention is None or (t["args"] and mention in str(desc_operand(c, t["args"][0])))
+
+
+
+def adaptor_chain(fn, o, depth=0):
+    """(names of the calls an iterator/Option chain is built from, field names it is rooted at, operands of the calls):
+    follows receiver arguments back from operand o (`self.frames.iter().rev().skip(n)` -> ({iter, rev, skip}, {frames}))"""
+    names, fields, extra = [], set(), []
+    cur = o
+    for _ in range(16):
+        r = fn.root_of(cur)
+        if r[0] == "call":
+            t = r[1]
+            names.append(lastseg(t.get("decl") or t["f"]))
+            extra.extend(t["args"][1:])
+            if not t["args"]:
+                break
+            cur = t["args"][0]
+            continue
+        if r[0] == "place":
+            for e in r[1]["p"]:
+                if e[0] == "field" and e[2]:
+                    fields.add(e[2])
+        break
+    return names, fields, extra
